@@ -1,13 +1,13 @@
 /-
 C12 - the peer ranking as the CODE defines it (`AddPeer`, `Punish`, `Reward`, `ResetRanking` of
-query/peer_rank.go, translated on every run into Gen/Trans.lean with the map field threaded
+query/peer_rank.go, translated on every run into Gen/TransRank.lean with the map field threaded
 through) is the ranking of the dispatcher model, which `C12_rank`, `C12_rank_scores` and
 `C12_score_moves` are about.
 -/
 import Neutrino.Props.C12
 import Neutrino.Lemmas.TransRank
 namespace Neutrino.Disp
-open Neutrino.Gen.Trans Neutrino.GoInt
+open Neutrino.Gen.TransRank Neutrino.GoInt
 
 /-- **The four ranking methods are the model's**, for every injective naming `enc` of peer
 addresses and every ranking map (for `Punish`: scores below 2^64 - 1, the code adds on `uint64`). -/
